@@ -116,7 +116,7 @@ class Simulation:
         self._events_cancelled: int = 0
 
         # Pre-run scheduled events — replayed on reset()
-        self._pre_run_event_specs: list[tuple[Instant, str, object, bool, dict]] = []
+        self._pre_run_event_specs: list[tuple[Instant, str, object, bool, dict, int]] = []
 
         # Control surface — lazy-created on first access
         self._control = None
@@ -211,12 +211,14 @@ class Simulation:
         for e in items:
             meta = e.context.get("metadata", {}) if e.context else {}
             self._pre_run_event_specs.append(
-                (e.time, e.event_type, e.target, e.daemon, dict(meta))
+                (e.time, e.event_type, e.target, e.daemon, dict(meta), e._sort_index)
             )
 
     def _replay_pre_run_events(self) -> None:
         """Recreate and push all events that were scheduled before the first run."""
-        for time, event_type, target, daemon, meta in self._pre_run_event_specs:
+        # Recreate in original creation order so same-time events keep their FIFO order.
+        specs = sorted(self._pre_run_event_specs, key=lambda spec: spec[5])
+        for time, event_type, target, daemon, meta, _ in specs:
             ctx = {"metadata": dict(meta)} if meta else None
             fresh = Event(
                 time=time,
